@@ -78,6 +78,12 @@ def dataset_specs(tier: str, purpose: str) -> list[dict]:
         {'family': 'shoc_standard', 'nj': 3, 'ni': 3, 'dry': 'corner', 'big_endian': True},
         {'family': 'ugrid', 'mesh': 'M4', 'supplied': ['edge_node', 'face_face'], 'fill': 'fillattr', 'start_index': 1, 'big_endian': True},
     ]
+    specs += [
+        {'family': 'cf1d', 'ny': 3, 'nx': 4, 'packed_data': True},
+        {'family': 'shoc_standard', 'nj': 3, 'ni': 3, 'packed_data': True, 'dry': 'corner'},
+        {'family': 'ugrid', 'mesh': 'M4', 'supplied': ['edge_node', 'face_face'], 'fill': 'fillattr', 'deflate': True},
+        {'family': 'cf2d', 'ny': 3, 'nx': 3, 'geometry': 'skew', 'deflate': True, 'packed_data': True},
+    ]
     # no records yet (a grid or template file with an unlimited time axis), and a single record
     specs += [
         {'family': 'cf1d', 'ny': 3, 'nx': 3, 'nt': 0, 'ints': True},
@@ -154,6 +160,16 @@ def clip_cases(tier: str, purpose: str) -> list[dict]:
 
 def prepare(spec: dict, regime: str, tmp: str, tag: str):
     ds, truth = builders.build(spec)
+    if spec.get('packed_data') and regime != 'memory':
+        # a data variable stored packed (scaled integers with a fill value), as most ocean archives do
+        ds['botz'].encoding.update({'dtype': 'int32', 'scale_factor': 0.5, 'add_offset': 100.0, '_FillValue': -2147483647})
+    if spec.get('deflate') and regime == 'file':
+        # source files written with compression
+        import os
+        path = os.path.join(tmp, f'{tag}.nc')
+        ds.to_netcdf(path, encoding={str(name): {'zlib': True, 'complevel': 1, 'shuffle': True} for name in ds.variables
+                                     if ds[name].dtype.kind in 'fiu' and ds[name].ndim > 0})
+        return xr.open_dataset(path), truth
     if regime == 'file':
         ds = builders.reopen(ds, tmp, f'{tag}.nc')
     elif regime == 'raw':
